@@ -5,6 +5,10 @@ from .values import *
 from .engine import *
 
 
+import os as _os
+DUMP_LAST = _os.environ.get('VERIF_DUMP_LAST')
+
+
 class ExecBase:
     def __init__(self, srv, opts=None):
         self.srv = srv
@@ -291,6 +295,8 @@ class ExecBase:
         if extra is not None:
             self.solver.push()
             self.solver.add(extra)
+        if DUMP_LAST:
+            open(DUMP_LAST, 'w').write(self.solver.to_smt2())
         r = self.solver.check()
         m = None
         if r == z3.sat:
